@@ -212,7 +212,7 @@ class Unit:
         lines = [indent + kind]
         for k, c in enumerate(clauses, 1):
             oid = '%s/%s#%d' % (fid, kind, k)
-            if kind in ('ensures', 'invariant'):
+            if kind in ('ensures', 'invariant', 'invariant_except_break'):
                 ids.append(oid)
                 lines.append('%s    /*@OB %s*/ %s /*@END*/,' % (indent, oid, c))
             else:
@@ -271,10 +271,18 @@ class Unit:
                 if ch != '{':
                     raise LostAnchor('%s: loop %d has no body' % (qual, k))
                 lfid = '%s/loop%d' % (fid, k)
+                if spec.get('iter_name'):
+                    # `for x in EXPR` => `for x in NAME: EXPR` (names Verus' ghost iterator; no executable effect)
+                    m_in = re.compile(r'\bin\s+').search(body, off, bo)
+                    if kw != 'for' or not m_in:
+                        raise LostAnchor('%s: loop %d is not a for-in loop' % (qual, k))
+                    inserts.append((m_in.end(), spec['iter_name'] + ': '))
+                    f.edits.append(('splice', 'ghost iterator named `%s`' % spec['iter_name'], ''))
                 t = '\n'
                 if spec.get('invariant_except_break'):
                     tt, ids = self._clauses(lfid, 'invariant_except_break', spec['invariant_except_break'], indent + '        ')
                     t += tt
+                    f.obligations += ids
                 tt, ids = self._clauses(lfid, 'invariant', spec.get('invariant'), indent + '        ')
                 t += tt
                 f.obligations += ids
